@@ -88,7 +88,7 @@ impl Gen<'_> {
 
     fn cmd(&mut self, depth: u32, nested: bool) -> Cmd {
         let mut c = Cmd { lines: vec![], tags: vec![], out: String::new(), heredoc: false, continuation: false, subst_tags: vec![] };
-        let top = if depth >= 2 { 6 } else { 48 };
+        let top = if depth >= 2 { 6 } else { 50 };
         match self.rng.below(top) {
             0..=2 => {
                 let (l, t) = self.probe_line();
@@ -164,14 +164,16 @@ impl Gen<'_> {
             }
             10 => {
                 let i = self.id();
-                let (delim, tab) = match self.rng.below(3) {
+                let (delim, tab) = match self.rng.below(4) {
                     0 => ("EOF", ""),
                     1 => ("'EOF'", ""),
+                    3 => ("''", ""),
                     _ => ("-EOF", "\t"),
                 };
                 c.lines.push(format!("simcat <<{delim}"));
                 c.lines.push(format!("{tab}body {i}"));
-                c.lines.push(format!("{tab}EOF"));
+                // (an empty delimiter is matched by an empty line)
+                c.lines.push(if delim == "''" { String::new() } else { format!("{tab}EOF") });
                 c.out = format!("body {i}\n");
                 c.heredoc = true;
             }
@@ -420,6 +422,20 @@ impl Gen<'_> {
                 c.lines.push("2 ))".to_string());
                 c.out = "3\n".into();
                 c.continuation = true;
+            }
+            48 => {
+                // $LINENO inside a one-line command substitution (same known finding as the
+                // multi-line form: the text is re-parsed without its position)
+                let i = self.id();
+                c.lines.push(format!("z{i}=$(probe p{i} $LINENO)"));
+                c.tags.push(format!("p{i}"));
+                c.subst_tags.push(format!("p{i}"));
+            }
+            49 => {
+                let i = self.id();
+                c.lines.push(format!("eval 'probe p{i} $LINENO'"));
+                c.tags.push(format!("p{i}"));
+                c.subst_tags.push(format!("p{i}"));
             }
             47 => {
                 // a line ending in three backslashes: an escaped backslash, then a continuation
